@@ -170,9 +170,9 @@ func TestC01(t *testing.T) {
 
 func TestC02(t *testing.T) {
 	runProp(t, propSpec{id: "C02", modeF: [2]int{100, 1000},
-		rule: "same engine, weighted towards read transactions held open across foreign commits, persists and merges and re-reading all earlier reads; oracle = every read equals start snapshot + own changes (own model) and repeated reads are identical. Non-trivial: a re-read happened in a history with a successful commit and a persist/merge; distinct by program.",
+		rule: "same engine, weighted towards read transactions held open across foreign commits, persists, merges and index builds (admin requests) and re-reading all earlier reads; at every re-read the table definitions the transaction shows (GetSchema) must be those it showed when it began; oracle = every read equals start snapshot + own changes (own model) and repeated reads are identical. Non-trivial: a re-read happened in a history with a successful commit and a persist/merge; distinct by program.",
 		opts: GenOpts{World: baseWorld, Slots: 4, MaxInstrs: 40, ValRange: 12,
-			Weights: map[string]int{"beginread": 8, "reread": 10, "persist": 4, "mergesync": 4, "lookup": 10, "scan": 10}},
+			Weights: map[string]int{"beginread": 8, "reread": 10, "persist": 4, "mergesync": 4, "lookup": 10, "scan": 10, "admin": 3}},
 		nt:    func(l map[string]int) bool { return l["reread"] > 0 && l["commit_ok"] > 0 && l["persist"] > 0 },
 		quick: 1500, thorough: 20000})
 }
